@@ -190,7 +190,7 @@ func checkC19(c *harness.Check) {
 	// U+0171='q'; same low 16 bits: U+10031='1', U+10061='a')
 	sym := []string{"a", "h", "e", "1", "8", "9", "0", "q", "k", "p", "x", " ", "é", "٣", "\x00", "A", "Q", "-", "ı", "ĸ", "š", "Ũ", "ű", "\U00010031", "\U00010061"}
 	maxLen := 5
-	c.Rule = fmt.Sprintf("(a) every string of <= %d symbols over %q into ParseMove and ParseSquareStr; (b) every FEN whose board field is a word of <= %d tokens over {K,k,p,1,3,8,9,0,/,arabic-3,x, 8/8/8/8, 8/8/8/8/8/8/8/7, 9x28 (run-length macros: the square cursor is a small unsigned integer)} with canonical other fields, and valid boards crossed with field alphabets for side/castling/e.p./clocks; (c) every single (thorough: and double) edit - replace, insert, delete over a 30-symbol alphabet - of %d valid FENs; (d) for every BFS node (depth<=1) of the seed corpus all 64x64x(none,q,r,b,n,k,p) move strings + case/length variants through Engine.Move: accepted iff reference-legal, successor FEN standard, state snapshot unchanged on rejection (positions one move from a seed are set up by PLAYING that move, so the engine has a history to lose). Oracle for decoding: no panic; error or non-nil self-consistent position whose re-encoding decodes to the same position. distinct_nontrivial = accepted inputs", maxLen, sym, c.Pick(5, 6), 10)
+	c.Rule = fmt.Sprintf("(a) every string of <= %d symbols over %q into ParseMove and ParseSquareStr; (b) every FEN whose board field is a word of <= %d tokens over {K,k,p,1,3,8,9,0,/,arabic-3,x, 8/8/8/8, 8/8/8/8/8/8/8/7, 9x28 (run-length macros: the square cursor is a small unsigned integer)} with canonical other fields, and valid boards crossed with field alphabets for side/castling/e.p./clocks; (c) every single (thorough: and double) edit - replace, insert, delete over a 30-symbol alphabet - of %d valid FENs; (d) for every BFS node (depth<=1) of the seed corpus all 64x64x(none,q,r,b,n,k,p) move strings + case/length variants through Engine.Move: accepted iff reference-legal, successor FEN standard, state snapshot unchanged on rejection (positions one move from a seed are set up by PLAYING that move, so the engine has a history to lose). (e) on engines that have a game: Reset with every single edit of two FENs that does not decode, is rejected and leaves the game as it was (and so does a refused TakeBack at the root). Oracle for decoding: no panic; error or non-nil self-consistent position whose re-encoding decodes to the same position. distinct_nontrivial = accepted inputs", maxLen, sym, c.Pick(5, 6), 10)
 
 	// (a) short strings into the two parsers
 	var cc classCap
@@ -448,5 +448,59 @@ func checkC19(c *harness.Check) {
 		c.Traces.Add(1)
 	})
 	c.Sample(map[string]any{"engine_move_position": "r3k2r/8/8/8/8/8/6n1/R3K2R w KQkq - 3 9", "strings": "a1a1 .. h8h8p (28672) + case/length variants", "legal_per_reference": 23})
+	// (e) rejected set-ups and take-backs on an engine that has a game: every FEN of the single-edit
+	// family that does not decode, an empty string and a take-back at the root leave the game as it was
+	{
+		ctx := context.Background()
+		type st struct {
+			fen   string
+			moves []string
+		}
+		games := []st{{corpus.Initial, []string{"e2e4", "e7e5", "g1f3"}}, {"r3k2r/8/8/8/8/8/8/R3K2R w KQkq - 3 9", []string{"e1g1"}}, {"k7/p7/P7/8/8/7p/7P/7K b - - 97 140", nil}}
+		var bad []string
+		for _, base := range []string{corpus.Initial, "r3k2r/8/8/8/8/8/8/R3K2R w KQkq - 3 9"} {
+			for i := 0; i <= len(base); i++ {
+				for _, a := range []string{"", "9", "x", "/", " ", "K", "0", "-"} {
+					if i < len(base) {
+						bad = append(bad, base[:i]+a+base[i+1:]) // replace (or delete when a is empty)
+					}
+					bad = append(bad, base[:i]+a+base[i:]) // insert
+				}
+			}
+		}
+		bad = append(bad, "", " ", "startpos", "8/8/8/8/8/8/8/8 w - - 0 1 extra")
+		harness.Parallel(len(games), func(gi int) {
+			e := newPlainEngine(ctx)
+			setup := func() {
+				_ = e.Reset(ctx, games[gi].fen)
+				for _, m := range games[gi].moves {
+					_ = e.Move(ctx, m)
+				}
+			}
+			setup()
+			before := bridge.Snapshot(e.Board(), true) + "|" + e.Position()
+			for _, f := range bad {
+				if _, _, _, _, err := fen.Decode(f); err == nil {
+					continue // a valid FEN: Reset is meant to replace the game
+				}
+				c.Evaluations.Add(1)
+				err := e.Reset(ctx, f)
+				after := bridge.Snapshot(e.Board(), true) + "|" + e.Position()
+				if err == nil || after != before {
+					c.Violation(cc.sig("C19/reset-rejected", f), fmt.Sprintf("Reset(%q) on an engine with a game: err=%v; the FEN does not decode, the game must stay as it was\n      before %s\n      after  %s", f, err, before, after), "C19/note", f)
+					setup()
+				}
+			}
+			// take back everything, then once more
+			for range games[gi].moves {
+				_ = e.TakeBack(ctx)
+			}
+			root := bridge.Snapshot(e.Board(), true) + "|" + e.Position()
+			if err := e.TakeBack(ctx); err != nil && bridge.Snapshot(e.Board(), true)+"|"+e.Position() != root {
+				c.Violation(cc.sig("C19/takeback-at-root", games[gi].fen), fmt.Sprintf("TakeBack with nothing to take back was refused (%v) but changed the game", err), "C19/note", games[gi].fen)
+			}
+		})
+		c.SetExtra("rejected_setups_tried", len(bad))
+	}
 	c.Finish()
 }
